@@ -58,13 +58,40 @@ def _inert(st):
     return False
 
 
+def _is_clamp_loop(st):
+    return isinstance(st, ast.For) and any(isinstance(x, ast.If) for x in st.body) and all(isinstance(x, ast.If) or _inert(x) for x in st.body)
+
+
 def clamp_loops(fnode):
     """for-loops inside the Newton while-loop that only clamp the joint vector"""
     out = []
     for w in [n for n in ast.walk(fnode) if isinstance(n, ast.While)]:
         for st in w.body:
-            if isinstance(st, ast.For) and any(isinstance(x, ast.If) for x in st.body) and all(isinstance(x, ast.If) or _inert(x) for x in st.body):
+            if _is_clamp_loop(st):
                 out.append((w, st))
+    return out
+
+
+def clamp_helpers(module_funcs):
+    """module-level helpers whose whole body is a clamp loop over (vector, lower, upper) followed by `return vector`"""
+    out = {}
+    for name, fn in module_funcs.items():
+        body = [s for s in fn.body if not (isinstance(s, ast.Expr) and isinstance(s.value, ast.Constant)) and not _inert(s)]
+        params = [a.arg for a in fn.args.args]
+        if len(body) == 2 and _is_clamp_loop(body[0]) and isinstance(body[1], ast.Return) and isinstance(body[1].value, ast.Name) \
+                and len(params) == 3 and body[1].value.id == params[0]:
+            out[name] = (fn, body[0], params)
+    return out
+
+
+def clamp_sites(fnode, helpers):
+    """(while node, statement that clamps, loop node, (vector, lower, upper) names inside the loop, call or None)"""
+    out = [(w, lp, lp, None, None) for (w, lp) in clamp_loops(fnode)]
+    for w in [n for n in ast.walk(fnode) if isinstance(n, ast.While)]:
+        for st in w.body:
+            for c in [x for x in ast.walk(st) if isinstance(x, ast.Call) and isinstance(x.func, ast.Name) and x.func.id in helpers and len(x.args) == 3 and not x.keywords]:
+                fn, lp, params = helpers[c.func.id]
+                out.append((w, st, lp, tuple(params), c))
     return out
 
 
@@ -137,15 +164,28 @@ def check(model, rep):
     # ---------------------------------------------------------------- R07.3
     rep.rule('R07.3', 'clamp block: for j in range(len(theta)): theta[j] < lo[j] -> lo[j]; theta[j] > hi[j] -> hi[j]; between the '
                       'Newton update and the error recomputation')
-    cl = clamp_loops(kc.node)
+    helpers = clamp_helpers({**tv.toplevel_funcs(fm.tree)})
+    cl = clamp_sites(kc.node, helpers)
     if len(cl) != 1:
-        rep.ob('R07.3', kc, 'clamp block', False, 'expected exactly one clamp loop inside the Newton loop, found %d' % len(cl))
+        rep.ob('R07.3', kc, 'clamp block', False, 'expected exactly one clamp of the joint vector inside the Newton loop, found %d' % len(cl))
     else:
-        w, lp = cl[0]
-        th, lo_p, hi_p = kc.params[3], kc.params[6], kc.params[7]
+        w, cst, lp, hp, hcall = cl[0]
+        kth, klo, khi = kc.params[3], kc.params[6], kc.params[7]
+        th, lo_p, hi_p = hp if hp else (kth, klo, khi)
+        where = kc if hp is None else model.func(FHP, hcall.func.id)
+        if hcall is not None:
+            a_ = [norm_text(x) for x in hcall.args]
+            names0 = {x.id for x in ast.walk(hcall.args[0]) if isinstance(x, ast.Name)}
+            rep.ob('R07.3', kc, 'clamp helper receives (joint vector, lower limits, upper limits)', kth in names0 and a_[1] == klo and a_[2] == khi,
+                   'the clamp helper is called as %s(%s): the joint vector must be clamped between %s and %s' % (hcall.func.id, ', '.join(a_), klo, khi), line=hcall.lineno)
+            par = kc.module.parents.get(hcall)
+            stored = isinstance(cst, ast.Assign) and norm_text(cst.targets[0]) == kth and cst.value is hcall
+            inplace = isinstance(cst, ast.Expr) and cst.value is hcall and a_[0] == kth
+            rep.ob('R07.3', kc, 'the clamped vector is the one the iteration continues with', stored or inplace,
+                   'the result of the clamp is not what the loop carries on with: %s' % src(cst)[:80], line=cst.lineno)
         jv = lp.target.id if isinstance(lp.target, ast.Name) else '?'
         ok_range = src(lp.iter).replace(' ', '') == 'range(len(%s))' % th
-        rep.ob('R07.3', kc, 'clamp ranges over every joint', ok_range, 'clamp loop iterates %s, not range(len(%s))' % (src(lp.iter), th), line=lp.lineno)
+        rep.ob('R07.3', where, 'clamp ranges over every joint', ok_range, 'clamp loop iterates %s, not range(len(%s))' % (src(lp.iter), th), line=lp.lineno)
         seen = set()
         for st in [x for x in lp.body if isinstance(x, ast.If)]:
             t = st.test
@@ -153,7 +193,7 @@ def check(model, rep):
             cp = cmp_parts(t, left='%s[%s]' % (th, jv))
             if cp is not None:
                 rhs = cp[2]
-                asg = [s for s in st.body if isinstance(s, ast.Assign) and not _inert(s)]
+                asg = [s_ for s_ in st.body if isinstance(s_, ast.Assign) and not _inert(s_)]
                 if cp[1] in ('<', '<=') and rhs == '%s[%s]' % (lo_p, jv):
                     which = 'lower'
                     ok = len(asg) == 1 and norm_text(asg[0].targets[0]) == '%s[%s]' % (th, jv) and norm_text(asg[0].value) == rhs and not st.orelse
@@ -162,16 +202,28 @@ def check(model, rep):
                     ok = len(asg) == 1 and norm_text(asg[0].targets[0]) == '%s[%s]' % (th, jv) and norm_text(asg[0].value) == rhs and not st.orelse
             if which:
                 seen.add(which)
-            rep.ob('R07.3', kc, 'clamp: ' + src(t), ok, 'clamp statement does not set joint j to the bound it violates: ' + src(st)[:90], line=st.lineno)
-        rep.ob('R07.3', kc, 'both bounds clamped', seen == {'lower', 'upper'}, 'clamp handles %s bound(s) only' % sorted(seen), line=lp.lineno)
-        # order inside the while body: update < clamp < recomputation of the pose
-        upd = [s for s in w.body if ((isinstance(s, ast.Assign) and src(s.targets[0]) == th) or
-                                     (isinstance(s, ast.AugAssign) and src(s.target) == th)) and s.lineno < lp.lineno]
-        rec = [s for s in w.body if isinstance(s, ast.Assign) and isinstance(s.value, ast.Call) and 'FKinSpace' in src(s.value.func) and s.lineno > lp.end_lineno]
-        late = [s for s in w.body if isinstance(s, ast.Assign) and src(s.targets[0]) == th and s.lineno > lp.end_lineno]
-        rep.ob('R07.3', kc, 'Newton update < clamp < error recomputation', bool(upd) and bool(rec) and not late,
+            rep.ob('R07.3', where, 'clamp: ' + src(t), ok, 'clamp statement does not set joint j to the bound it violates: ' + src(st)[:90], line=st.lineno)
+        rep.ob('R07.3', where, 'both bounds clamped', seen == {'lower', 'upper'}, 'clamp handles %s bound(s) only' % sorted(seen), line=lp.lineno)
+        # order inside the while body: update <= clamp < recomputation of the pose
+
+        def recomputes(e_, depth=0):
+            for c_ in [x for x in ast.walk(e_) if isinstance(x, ast.Call)]:
+                nm = c_.func.id if isinstance(c_.func, ast.Name) else (c_.func.attr if isinstance(c_.func, ast.Attribute) else None)
+                if nm == 'FKinSpace':
+                    return True
+                for mod_ in (fm, model.module(tv.PORT_MOD)):
+                    f_ = tv.toplevel_funcs(mod_.tree).get(nm)
+                    if f_ is not None and nm not in ('IKinSpace', 'IKinBody', 'IKinSpaceConstrained') and depth < 3 and any(recomputes(s_, depth + 1) for s_ in f_.body):
+                        return True
+            return False
+        pos = w.body.index(cst)
+        upd = [s_ for s_ in w.body[:pos + 1] if ((isinstance(s_, ast.Assign) and src(s_.targets[0]) == kth) or
+                                                 (isinstance(s_, ast.AugAssign) and src(s_.target) == kth))]
+        rec = [s_ for s_ in w.body[pos + 1:] if isinstance(s_, ast.Assign) and recomputes(s_.value)]
+        late = [s_ for s_ in w.body[pos + 1:] if (isinstance(s_, ast.Assign) and src(s_.targets[0]) == kth) or (isinstance(s_, ast.AugAssign) and src(s_.target) == kth)]
+        rep.ob('R07.3', kc, 'Newton update <= clamp < error recomputation', bool(upd) and bool(rec) and not late,
                'the clamp does not sit between the joint update and the recomputation of the pose error (or the joints are '
-               'changed again after clamping)', line=lp.lineno)
+               'changed again after clamping)', line=cst.lineno)
     cik = arm.methods['constrainedIK']
     # retry seeds drawn inside the limits
     seeds = [c for c in walk_own(cik.node) if isinstance(c, ast.Call) and src(c.func) == 'random.uniform']
@@ -291,10 +343,17 @@ def check(model, rep):
     rep.rule('R07.5', 'IKinSpaceConstrained minus its clamp block, parameters mapped by role, has the normal form of IKinSpace')
     node = copy.deepcopy(kc.node)
     for w in [n for n in ast.walk(node) if isinstance(n, ast.While)]:
-        w.body = [st for st in w.body if not (isinstance(st, ast.For) and any(isinstance(x, ast.If) for x in st.body) and all(isinstance(x, ast.If) or _inert(x) for x in st.body))]
-    port_funcs = set(tv.toplevel_funcs(model.module(tv.PORT_MOD).tree)) | set(tv.toplevel_funcs(fm.tree))
+        w.body = [st for st in w.body if not _is_clamp_loop(st)]
+
+    class _Strip(ast.NodeTransformer):
+        def visit_Call(s_, n):
+            s_.generic_visit(n)
+            if isinstance(n.func, ast.Name) and n.func.id in helpers and len(n.args) == 3:
+                return n.args[0]            # clamp(x, lo, hi) without the clamp is x
+            return n
+    node = _Strip().visit(node)
     try:
-        a_nz = Normalizer(node, SHAPES, port_funcs, None, True, tv.toplevel_names(fm.tree))
+        a_nz = tv._normalizer(model, fm, node, kc.name)
         a = a_nz.run()
         b, _ = tv.port_nf(model, 'IKinSpace')
     except Unsupported as e:
